@@ -339,8 +339,17 @@ fn write_minimal_mcnk_chunk<W: Write + Seek>(
     let mcnk_size = (mcnk_end - mcnk_start - 8) as u32;
 
     // Build MCNK header with calculated offsets
+    // The has_mccv flag must be set whenever an MCCV sub-chunk is written: readers
+    // (including this crate's parser) only look at ofs_mccv when the flag is set.
+    const MCNK_FLAG_HAS_MCCV: u32 = 0x40;
+    let flags = if mccv_offset != 0 {
+        MCNK_FLAG_HAS_MCCV
+    } else {
+        0
+    };
+
     let header = McnkHeader {
-        flags: McnkFlags { value: 0 },
+        flags: McnkFlags { value: flags },
         index_x: x,
         index_y: y,
         n_layers: 1, // One texture layer
